@@ -5,7 +5,8 @@
    kept by the truncations of clear / pop / pop_if_empty and by push / extend: the path state in the
    PathSegmentSetter context writes the PATH_SEGMENT encoding of the argument without tab / LF / CR (no '/', no '\'
    for special schemes, '%' encoded), then finish_segment treats a resulting "." or ".." as a dot segment - which
-   is how push(".<TAB>.") pops a segment (finding F-C06-7): the result is still canonical, which is what is proved. *)
+   is how push(".<TAB>.") popped a segment before extend() made its skip test on the tab / LF / CR-free text (finding
+   F-C06-7, fixed); the proof does not use the skip test: whatever reaches parse_path leaves a canonical result. *)
 From RU Require Import Base.Prelude Base.Utf8 Base.Utf8Facts Model.AsciiSet Gen.Tables
   Model.PercentEncoding Model.HostT Model.UrlRecord Model.Parser Model.Setters Model.WF
   Proofs.ListN Proofs.C06_List Proofs.C14_Set Proofs.C14_Enc Proofs.C02_Enc Proofs.C02_Parts
@@ -225,7 +226,7 @@ Proof.
   induction segments as [|seg rest IH]; intros X s' HX Hu H; cbn [psm_extend_loop] in H.
   - inversion H; subst s'. exists X. split; [reflexivity | exact HX].
   - apply Forall_cons_iff in Hu. destruct Hu as [Hseg Hrest].
-    destruct (list_eqb seg [46] || list_eqb seg [46; 46]); [exact (IH X s' HX Hrest H)|].
+    destruct (psm_skips seg); [exact (IH X s' HX Hrest H)|].
     assert (exists segs1, forallb (gseg st) segs1 = true /\
               (if (nlen F + 1 <? nlen (F ++ X)) || (nlen (F ++ X) =? nlen F) then (F ++ X) ++ [47] else F ++ X) = Bs F segs1)
       as (segs1 & Hs1 & Es1).
